@@ -636,6 +636,30 @@ def rule_recovery_noconsume(prog):
                     "a raw `take` outside the token parsers bypasses comment skipping", ("take",))
     for m_, loc_ in sorted(takers_by_macro.items()):
         out.add(m_, "takes tokens only in tag_parser!/comment/ignore_until", True, loc_, "", ("take",))
+    # ... and who may *look* at the next raw token: a parser that inspects `input.fragment()` itself sees a comment
+    # where the token parsers would have skipped it, so its decision depends on comments
+    n_peek = 0
+    for b in c.bodies:
+        f = c.file_of(b["sp"])
+        if not (f.endswith("parser.rs") or "/parser/" in f) or "/tests" in f:
+            continue
+
+        def _taker2(x):
+            return x["p"] in tags or x["p"] in comments or x["p"].startswith("spl_frontend::parser::utility::ignore_until")
+        for n_ in hir.nodes(b["body"], "MethodCall"):
+            if n_["m"] in ("fragment", "tokens") and "TokenStream" in c.tstr(n_["recv"]["t"]) + "".join(c.tstr(a_["to"]) for a_ in n_["recv"].get("adj") or []):
+                if n_["m"] == "tokens" and _taker2(b):
+                    continue
+                ok = _taker2(b) or hir.only_called_from(prog, b["p"], _taker2)
+                mx = [m for m in (n_.get("mx") or []) if m in (b.get("mx") or [])]
+                n_peek += 1
+                if mx and ok:
+                    continue
+                out.add(b["d"], "inspects the next raw token only in tag_parser!/comment/ignore_until", ok, c.loc(n_["sp"]),
+                        "`input.%s()` outside the token parsers looks at the next raw token without skipping comments: the "
+                        "parse then depends on where comments are written" % n_["m"], ("take", "peek"))
+    if n_peek == 0:
+        out.missing("TokenStream::fragment() uses in the token parsers")
     # declaration keywords are consumed only by the declaration parsers and look_ahead::global_dec
     for kw, owner in (("proc", "ProcedureDeclaration"), ("type", "TypeDeclaration")):
         path = "spl_frontend::parser::keywords::" + ("r#type" if kw == "type" else kw)
